@@ -1169,16 +1169,105 @@ theorem restShape_trail (T : Str) (h : TrailOk T) : T = [] ∨ T.head? = some ' 
   · exact Or.inl rfl
   · exact Or.inr rfl
 
+/-- A block collection is not empty; a compact one and the root one start without filler lines. -/
+def PItems.startOk (items : PItems) (c : Bool) (ctx : Ctx) : Bool :=
+  !items.isNil && (!(c || ctx == .root) || items.firstFillEmpty)
+def PEntries.startOk (es : PEntries) (c : Bool) (ctx : Ctx) : Bool :=
+  !es.isNil && (!(c || ctx == .root) || es.firstFillEmpty)
+
+/-- The filler lines before a sequence entry: admissible comments / blank lines, and no blank line
+right after a value that ends in a keep-chomped block scalar. -/
+def itemFill (m : Meta) (x : PNode) (r : PItems) : Bool :=
+  m.fill.all fillerOk && (match r with | .cons m' _ _ => !(x.endsKeep && startsBlank m') | .nil => true)
+
+def entryFill (m : Meta) (x : PNode) (r : PEntries) : Bool :=
+  m.fill.all fillerOk && (match r with | .cons m' _ _ _ _ => !(x.endsKeep && startsBlank m') | .nil => true)
+
+theorem fillLines_filler (n : Nat) (fs : List Filler) : ∀ l ∈ fillLines n fs, l.isFiller = true := by
+  intro l hl
+  obtain ⟨f, _, rfl⟩ := List.mem_map.mp hl
+  cases f <;> simp [fillerLine, Line.isFiller]
+
+theorem skipFill_fillLines (n : Nat) (fs : List Filler) (ls : List Line) :
+    skipFill (fillLines n fs ++ ls) = skipFill ls := by
+  induction fs with
+  | nil => rfl
+  | cons f fs ih =>
+    have : (fillerLine n f).isFiller = true := fillLines_filler n [f] _ (by simp [fillLines])
+    simp only [fillLines, List.map_cons, List.cons_append, skipFill, this, if_true] at ih ⊢
+    exact ih
+
+theorem fillLines_canon (n : Nat) (fs : List Filler) (h : fs.all fillerOk = true) : ∀ l ∈ fillLines n fs, l.canon := by
+  intro l hl
+  obtain ⟨f, hf, rfl⟩ := List.mem_map.mp hl
+  have hfo := List.all_eq_true.mp h f hf
+  cases f with
+  | blank => exact ⟨by simp [fillerLine], by simp [fillerLine]⟩
+  | comment c =>
+    refine ⟨by simp [fillerLine], ?_⟩
+    simp only [fillerLine, List.all_cons]
+    have := okc_of_printable c (by simpa [fillerOk, commentOk] using hfo)
+    simp [this, okc]
+
+/-- Filler lines followed by a line with content not deeper than `n`. -/
+theorem tail_fill (n : Nat) (k : Bool) (fs : List Filler) (L : Line) (more : List Line)
+    (hne : L.txt.isEmpty = false) (hle : L.ind ≤ n) (hk : k = true → fs.head? ≠ some .blank) :
+    Tail n k (fillLines n fs ++ L :: more) := by
+  refine ⟨?_, ?_, ?_⟩
+  · clear hk
+    induction fs with
+    | nil =>
+      intro l r h
+      simp only [fillLines, List.map_nil, List.nil_append, List.dropWhile_cons, blankL, hne, Bool.false_eq_true, if_false,
+        List.cons.injEq] at h
+      rw [← h.1]; exact hle
+    | cons f fs ih =>
+      intro l r h
+      cases f with
+      | blank =>
+        simp only [fillLines, List.map_cons, fillerLine, List.cons_append, List.dropWhile_cons, blankL, List.isEmpty_nil,
+          if_true] at h
+        exact ih l r h
+      | comment c =>
+        simp only [fillLines, List.map_cons, fillerLine, List.cons_append, List.dropWhile_cons, blankL, List.isEmpty_cons,
+          Bool.false_eq_true, if_false, List.cons.injEq] at h
+        rw [← h.1]; exact Nat.le_refl _
+  · clear hk
+    induction fs with
+    | nil => intro l h; simp [fillLines, List.takeWhile_cons, blankL, hne] at h
+    | cons f fs ih =>
+      intro l h
+      cases f with
+      | blank =>
+        simp only [fillLines, List.map_cons, fillerLine, List.cons_append, List.takeWhile_cons, blankL, List.isEmpty_nil,
+          if_true, List.mem_cons] at h
+        rcases h with h | h
+        · rw [h]
+        · exact ih l h
+      | comment c =>
+        simp [fillLines, fillerLine, List.takeWhile_cons, blankL] at h
+  · intro hk' l r h
+    cases fs with
+    | nil =>
+      simp only [fillLines, List.map_nil, List.nil_append, List.cons.injEq] at h
+      rw [← h.1]; exact hne
+    | cons f fs =>
+      cases f with
+      | blank => exact absurd rfl (hk hk')
+      | comment c =>
+        simp only [fillLines, List.map_cons, fillerLine, List.cons_append, List.cons.injEq] at h
+        rw [← h.1]; rfl
+
 mutual
 /-- A value of layers 2–4 in context `ctx` (`m` = its entry's meta): scalars, block scalars below the
 root, flow collections, block collections — nested with steps, compact after `- ` —, trailing comments
-on entries; no anchors / aliases, no filler lines. -/
+on entries, comment and blank lines between entries; no anchors / aliases. -/
 def PNode.bl2 (ctx : Ctx) : PNode → Bool
   | .seq false st c items =>
-    !items.isNil && items.bl2 &&
+    items.startOk c ctx && items.bl2 &&
       (if c then ctx == .seq else ctx == .root || 1 ≤ st || (ctx == .map && st == 0))
   | .map false st c es =>
-    !es.isNil && es.bl2 && (if c then ctx == .seq else ctx == .root || 1 ≤ st)
+    es.startOk c ctx && es.bl2 && (if c then ctx == .seq else ctx == .root || 1 ≤ st)
   | .seq true st c items => (PNode.seq true st c items).fl2
   | .map true st c es => (PNode.map true st c es).fl2
   | .null v => !(ctx == .root && v % 5 == 4)
@@ -1187,12 +1276,48 @@ def PNode.bl2 (ctx : Ctx) : PNode → Bool
   | x => x.sc2 false
 def PItems.bl2 : PItems → Bool
   | .nil => true
-  | .cons m x r => m.fill.isEmpty && trailOk2 m x && x.bl2 .seq && r.bl2
+  | .cons m x r => itemFill m x r && trailOk2 m x && x.bl2 .seq && r.bl2
 def PEntries.bl2 : PEntries → Bool
   | .nil => true
-  | .cons m k ks x r => m.fill.isEmpty && trailOk2 m x && keyOk false k ks && x.bl2 .map && r.bl2
+  | .cons m k ks x r => entryFill m x r && trailOk2 m x && keyOk false k ks && x.bl2 .map && r.bl2
 end
 
+
+theorem startOk_items (items : PItems) (c : Bool) (ctx : Ctx) (h : items.startOk c ctx = true) :
+    items.isNil = false ∧ ((c = true ∨ ctx = .root) → items.firstFillEmpty = true) := by
+  simp only [PItems.startOk, Bool.and_eq_true, Bool.not_eq_true', Bool.or_eq_true, Bool.not_eq_true', Bool.or_eq_false_iff] at h
+  refine ⟨h.1, ?_⟩
+  intro hc
+  rcases h.2 with h2 | h2
+  · rcases hc with hc | hc
+    · rw [hc] at h2; simp at h2
+    · rw [hc] at h2; simp at h2
+  · exact h2
+
+theorem startOk_entries (es : PEntries) (c : Bool) (ctx : Ctx) (h : es.startOk c ctx = true) :
+    es.isNil = false ∧ ((c = true ∨ ctx = .root) → es.firstFillEmpty = true) := by
+  simp only [PEntries.startOk, Bool.and_eq_true, Bool.not_eq_true', Bool.or_eq_true, Bool.not_eq_true', Bool.or_eq_false_iff] at h
+  refine ⟨h.1, ?_⟩
+  intro hc
+  rcases h.2 with h2 | h2
+  · rcases hc with hc | hc
+    · rw [hc] at h2; simp at h2
+    · rw [hc] at h2; simp at h2
+  · exact h2
+
+theorem first_fill_items (m : Meta) (x : PNode) (r : PItems) (c : Bool) (ctx : Ctx)
+    (h : (PItems.cons m x r).startOk c ctx = true) (hc : c = true ∨ ctx = .root) : m.fill = [] := by
+  have := (startOk_items _ c ctx h).2 hc
+  simpa [PItems.firstFillEmpty] using this
+theorem first_fill_entries (m : Meta) (k : Str) (ks : KStyle) (x : PNode) (r : PEntries) (c : Bool) (ctx : Ctx)
+    (h : (PEntries.cons m k ks x r).startOk c ctx = true) (hc : c = true ∨ ctx = .root) : m.fill = [] := by
+  have := (startOk_entries _ c ctx h).2 hc
+  simpa [PEntries.firstFillEmpty] using this
+
+theorem itemFill_ok (m : Meta) (x : PNode) (r : PItems) (h : itemFill m x r = true) : m.fill.all fillerOk = true := by
+  simp only [itemFill, Bool.and_eq_true] at h; exact h.1
+theorem entryFill_ok (m : Meta) (x : PNode) (r : PEntries) (h : entryFill m x r = true) : m.fill.all fillerOk = true := by
+  simp only [entryFill, Bool.and_eq_true] at h; exact h.1
 
 /-- The text of an inline (single-line) layer-2 value: a block-context scalar or a flow collection. -/
 def PNode.isInline2 : PNode → Bool
@@ -1267,16 +1392,6 @@ theorem okc_inline2 (x : PNode) (ctx : Ctx) (h : x.bl2 ctx = true) (hi : x.isInl
   | anchored a n => simp [PNode.bl2, PNode.sc2] at h
   | alias a t => simp [PNode.bl2, PNode.sc2] at h
 
-theorem bl2_firstFill_items (items : PItems) (h : items.bl2 = true) : items.firstFillEmpty = true := by
-  cases items with
-  | nil => rfl
-  | cons m x r => simp [PItems.bl2] at h; simp [PItems.firstFillEmpty, h.1.1.1]
-
-theorem bl2_firstFill_entries (es : PEntries) (h : es.bl2 = true) : es.firstFillEmpty = true := by
-  cases es with
-  | nil => rfl
-  | cons m k ks x r => simp [PEntries.bl2] at h; simp [PEntries.firstFillEmpty, h.1.1.1.1]
-
 mutual
 theorem cwf_of_bl2 : (x : PNode) → ∀ ctx, x.bl2 ctx = true → x.cwf = true
   | .seq fl st c items, ctx, h => by
@@ -1284,13 +1399,19 @@ theorem cwf_of_bl2 : (x : PNode) → ∀ ctx, x.bl2 ctx = true → x.cwf = true
     | true => simp [PNode.cwf]
     | false =>
       simp only [PNode.bl2, Bool.and_eq_true, Bool.not_eq_true'] at h
-      simp [PNode.cwf, h.1.1, bl2_firstFill_items items h.1.2, cwf_of_bl2_items items h.1.2]
+      obtain ⟨hn, hff⟩ := startOk_items items c ctx h.1.1
+      cases c with
+      | false => simp [PNode.cwf, cwf_of_bl2_items items h.1.2]
+      | true => simp [PNode.cwf, hn, hff (Or.inl rfl), cwf_of_bl2_items items h.1.2]
   | .map fl st c es, ctx, h => by
     cases fl with
     | true => simp [PNode.cwf]
     | false =>
       simp only [PNode.bl2, Bool.and_eq_true, Bool.not_eq_true'] at h
-      simp [PNode.cwf, h.1.1, bl2_firstFill_entries es h.1.2, cwf_of_bl2_entries es h.1.2]
+      obtain ⟨hn, hff⟩ := startOk_entries es c ctx h.1.1
+      cases c with
+      | false => simp [PNode.cwf, cwf_of_bl2_entries es h.1.2]
+      | true => simp [PNode.cwf, hn, hff (Or.inl rfl), cwf_of_bl2_entries es h.1.2]
   | .null _, _, _ => rfl
   | .bool _ _, _, _ => rfl
   | .int _ _, _, _ => rfl
@@ -1333,10 +1454,10 @@ theorem canon_value : (x : PNode) → ∀ ctx, x.bl2 ctx = true → ∀ (e col :
       | true =>
         have ht0 : m.trail = none := hTc rfl
         cases items with
-        | nil => simp [PItems.isNil] at h
+        | nil => simp [PItems.startOk, PItems.isNil] at h
         | cons m' x r =>
           have hc := canon_items (.cons m' x r) hi (col + m.gap + 1)
-          have hf : m'.fill = [] := by simp [PItems.bl2] at hi; exact hi.1.1.1
+          have hf : m'.fill = [] := first_fill_items m' x r true ctx h.1.1 (Or.inl rfl)
           simp only [PNode.valueR, if_true, PItems.linesR, hf, fillLines, List.map_nil, List.nil_append] at hc ⊢
           have h0 := hc _ (List.mem_cons_self ..)
           refine ⟨Or.inr (by simp [spaces, List.replicate_succ]), ?_, fun l hl => hc l (List.mem_cons_of_mem _ hl)⟩
@@ -1360,10 +1481,10 @@ theorem canon_value : (x : PNode) → ∀ ctx, x.bl2 ctx = true → ∀ (e col :
         exact ⟨restShape_trail _ hT, hTok, canon_entries es hi _⟩
       | true =>
         cases es with
-        | nil => simp [PEntries.isNil] at h
+        | nil => simp [PEntries.startOk, PEntries.isNil] at h
         | cons m' k ks x r =>
           have hc := canon_entries (.cons m' k ks x r) hi (col + m.gap + 1)
-          have hf : m'.fill = [] := by simp [PEntries.bl2] at hi; exact hi.1.1.1.1
+          have hf : m'.fill = [] := first_fill_entries m' k ks x r true ctx h.1.1 (Or.inl rfl)
           simp only [PNode.valueR, if_true, PEntries.linesR, hf, fillLines, List.map_nil, List.nil_append] at hc ⊢
           have h0 := hc _ (List.mem_cons_self ..)
           refine ⟨Or.inr (by simp [spaces, List.replicate_succ]), ?_, fun l hl => hc l (List.mem_cons_of_mem _ hl)⟩
@@ -1433,8 +1554,9 @@ theorem canon_items : (items : PItems) → items.bl2 = true → ∀ n, ∀ l ∈
     obtain ⟨⟨⟨hf, ht⟩, hx⟩, hr⟩ := h
     obtain ⟨hs, hok, hl⟩ := canon_value x .seq hx n (n + 1) m ht
     intro l hm
-    simp only [PItems.linesR, hf, fillLines, List.map_nil, List.nil_append, List.mem_cons, List.mem_append] at hm
-    rcases hm with rfl | hm | hm
+    simp only [PItems.linesR, List.mem_cons, List.mem_append] at hm
+    rcases hm with hm | rfl | hm | hm
+    · exact fillLines_canon n m.fill (itemFill_ok m x r hf) l hm
     · exact ⟨by simp, by simp only [List.all_cons, hok, Bool.and_true]; decide⟩
     · exact hl l hm
     · exact canon_items r hr n l hm
@@ -1446,8 +1568,9 @@ theorem canon_entries : (es : PEntries) → es.bl2 = true → ∀ n, ∀ l ∈ e
     obtain ⟨hs, hok, hl⟩ := canon_value x .map hx n (n + (keyText k ks).length + 1) m ht
     obtain ⟨⟨c0, t0, hk0, g1, _⟩, hkok, _⟩ := keyFacts false k ks hk
     intro l hm
-    simp only [PEntries.linesR, hf, fillLines, List.map_nil, List.nil_append, List.mem_cons, List.mem_append] at hm
-    rcases hm with rfl | hm | hm
+    simp only [PEntries.linesR, List.mem_cons, List.mem_append] at hm
+    rcases hm with hm | rfl | hm | hm
+    · exact fillLines_canon n m.fill (entryFill_ok m x r hf) l hm
     · refine ⟨by rw [hk0]; simpa using g1, ?_⟩
       simp only [List.all_append, hkok, List.all_cons, hok, Bool.and_true, Bool.true_and]; decide
     · exact hl l hm
@@ -1622,6 +1745,12 @@ theorem parseSeq_congr (f n : Nat) (a b : List Line) (acc : List Node) (h : skip
   cases f with
   | zero => simp [parseSeq]
   | succ f => rw [parseSeq, parseSeq, h]
+
+theorem parseBlock_congr (f pn : Nat) (sSame : Bool) (a b : List Line) (h : skipFill a = skipFill b) :
+    parseBlock f pn sSame a = parseBlock f pn sSame b := by
+  cases f with
+  | zero => simp [parseBlock]
+  | succ f => rw [parseBlock, parseBlock, h]
 
 theorem parseMap_congr (f n : Nat) (a b : List Line) (acc : List (Node × Node)) (h : skipFill a = skipFill b) :
     parseMap f n a acc = parseMap f n b acc := by
@@ -2305,7 +2434,7 @@ theorem bound_after_items (r : PItems) (hr : r.bl2 = true) (n : Nat) (rest : Lis
     obtain ⟨hs, _, _⟩ := canon_value x .seq hx n (n + 1) m ht
     obtain ⟨_, hfil⟩ := seqLine_facts n _ hs
     intro l r' hl
-    simp only [PItems.linesR, hf, fillLines, List.map_nil, List.nil_append, List.cons_append, skipFill, hfil,
+    simp only [PItems.linesR, List.append_assoc, skipFill_fillLines, List.cons_append, skipFill, hfil,
       Bool.false_eq_true, if_false, List.cons.injEq] at hl
     rw [← hl.1]
     exact ⟨Nat.le_refl _, by simp⟩
@@ -2324,37 +2453,42 @@ theorem bound_after_entries (r : PEntries) (hr : r.bl2 = true) (n : Nat) (rest :
     obtain ⟨hs, _, _⟩ := canon_value x .map hx n (n + (keyText k ks).length + 1) m ht
     obtain ⟨_, hd, hfil, htab⟩ := keyLine_facts n k ks hk _ hs
     intro l r' hl
-    simp only [PEntries.linesR, hf, fillLines, List.map_nil, List.nil_append, List.cons_append, skipFill, hfil,
+    simp only [PEntries.linesR, List.append_assoc, skipFill_fillLines, List.cons_append, skipFill, hfil,
       Bool.false_eq_true, if_false, List.cons.injEq] at hl
     rw [← hl.1]
     exact ⟨Nat.le_refl _, htab, fun _ => hd⟩
 
 
 theorem tail_after_items (m : Meta) (x : PNode) (r : PItems) (hr : r.bl2 = true) (n : Nat) (rest : List Line)
-    (hT : Tail n (PItems.cons m x r).endsKeep rest) :
+    (hfl : itemFill m x r = true) (hT : Tail n (PItems.cons m x r).endsKeep rest) :
     Tail n x.endsKeep (r.linesR n ++ rest) ∧ Tail n r.endsKeep rest := by
   cases r with
   | nil => exact ⟨by simpa [PItems.linesR, PItems.endsKeep] using hT, Tail_weaken _ _ _ hT⟩
   | cons m' x' r' =>
     refine ⟨?_, by simpa [PItems.endsKeep] using hT⟩
-    simp only [PItems.bl2, Bool.and_eq_true, List.isEmpty_iff, Option.isNone_iff_eq_none] at hr
-    have hf : m'.fill = [] := hr.1.1.1
-    simp only [PItems.linesR, hf, fillLines, List.map_nil, List.nil_append, List.cons_append]
-    exact Tail_of_head n _ _ _ rfl (Nat.le_refl _)
+    simp only [PItems.linesR, List.append_assoc, List.cons_append]
+    apply tail_fill n _ m'.fill _ _ rfl (Nat.le_refl _)
+    intro hk hb
+    simp only [itemFill, Bool.and_eq_true, Bool.not_eq_true', Bool.and_eq_false_imp] at hfl
+    have := hfl.2 hk
+    simp [startsBlank, hb] at this
 
 theorem tail_after_entries (m : Meta) (k : Str) (ks : KStyle) (x : PNode) (r : PEntries) (hr : r.bl2 = true) (n : Nat)
-    (rest : List Line) (hT : Tail n (PEntries.cons m k ks x r).endsKeep rest) :
+    (rest : List Line) (hfl : entryFill m x r = true) (hT : Tail n (PEntries.cons m k ks x r).endsKeep rest) :
     Tail n x.endsKeep (r.linesR n ++ rest) ∧ Tail n r.endsKeep rest := by
   cases r with
   | nil => exact ⟨by simpa [PEntries.linesR, PEntries.endsKeep] using hT, Tail_weaken _ _ _ hT⟩
   | cons m' k' ks' x' r' =>
     refine ⟨?_, by simpa [PEntries.endsKeep] using hT⟩
     simp only [PEntries.bl2, Bool.and_eq_true, List.isEmpty_iff, Option.isNone_iff_eq_none] at hr
-    have hf : m'.fill = [] := hr.1.1.1.1
     have hk : keyOk false k' ks' = true := hr.1.1.2
     obtain ⟨c0, t0, hkt, _⟩ := keyHead_facts k' ks' hk
-    simp only [PEntries.linesR, hf, fillLines, List.map_nil, List.nil_append, List.cons_append, hkt]
-    exact Tail_of_head n _ _ _ rfl (Nat.le_refl _)
+    simp only [PEntries.linesR, List.append_assoc, List.cons_append, hkt]
+    apply tail_fill n _ m'.fill _ _ rfl (Nat.le_refl _)
+    intro hk' hb
+    simp only [entryFill, Bool.and_eq_true, Bool.not_eq_true', Bool.and_eq_false_imp] at hfl
+    have := hfl.2 hk'
+    simp [startsBlank, hb] at this
 
 mutual
 /-- A layer-2/3 value after its indicator. -/
@@ -2407,7 +2541,7 @@ theorem afterL : (x : PNode) → ∀ (ctx : Ctx), x.bl2 ctx = true → ∀ (e co
     obtain ⟨⟨hnil, hi⟩, hc⟩ := h
     have hT : Tail e items.endsKeep rest := by simpa [PNode.endsKeep] using hT
     cases items with
-    | nil => simp [PItems.isNil] at hnil
+    | nil => simp [PItems.startOk, PItems.isNil] at hnil
     | cons m' x r =>
       have hi' := hi
       simp only [PItems.bl2, Bool.and_eq_true, List.isEmpty_iff, Option.isNone_iff_eq_none] at hi'
@@ -2421,7 +2555,8 @@ theorem afterL : (x : PNode) → ∀ (ctx : Ctx), x.bl2 ctx = true → ∀ (e co
         simp only [PNode.valueR, Bool.false_eq_true, if_false, PNode.node]
         rw [parseAfter_trail _ _ _ _ _ _ (trailOk_trailText m.trail)]
         obtain ⟨hs, _, _⟩ := canon_value x .seq hx (if ctx = .root then 0 else e + st) ((if ctx = .root then 0 else e + st) + 1) m' htr
-        simp only [PItems.linesR, hfl, fillLines, List.map_nil, List.nil_append, List.cons_append]
+        simp only [PItems.linesR, List.cons_append, List.append_assoc]
+        rw [parseBlock_congr (f' + 1) _ _ _ _ (skipFill_fillLines _ m'.fill _)]
         have hdisp := parseBlock_seq f' (pnOf ctx e) (if ctx = .root then 0 else e + st) (ctx == .map) _
           ((x.valueR .seq (if ctx = .root then 0 else e + st) ((if ctx = .root then 0 else e + st) + 1) m').2 ++
             r.linesR (if ctx = .root then 0 else e + st) ++ rest) hs (by
@@ -2454,8 +2589,8 @@ theorem afterL : (x : PNode) → ∀ (ctx : Ctx), x.bl2 ctx = true → ∀ (e co
           · simp [hr0, hroot hr0]
           · simp [hr0]
         have := seqL (.cons m' x r) hi (if ctx = .root then 0 else e + st) f' rest [] hf' hbs (Tail_mono _ _ _ _ hle hT)
-        simp only [PItems.linesR, hfl, fillLines, List.map_nil, List.nil_append, List.cons_append, List.append_assoc,
-          List.reverse_nil] at this
+        simp only [PItems.linesR, List.cons_append, List.append_assoc, List.reverse_nil] at this
+        rw [parseSeq_congr f' _ _ _ [] (skipFill_fillLines _ m'.fill _)] at this
         exact this
       | true =>
         have hctx : ctx = .seq := by simpa using hc
@@ -2465,7 +2600,8 @@ theorem afterL : (x : PNode) → ∀ (ctx : Ctx), x.bl2 ctx = true → ∀ (e co
           · exact h'
           · cases h'
         obtain ⟨hs, _, _⟩ := canon_value x .seq hx (col + m.gap + 1) (col + m.gap + 1 + 1) m' htr
-        simp only [PNode.valueR, if_true, PItems.linesR, hfl, fillLines, List.map_nil, List.nil_append, List.cons_append,
+        have hfl0 : m'.fill = [] := first_fill_items m' x r true .seq hnil (Or.inl rfl)
+        simp only [PNode.valueR, if_true, PItems.linesR, hfl0, fillLines, List.map_nil, List.nil_append, List.cons_append,
           PNode.node]
         have hd := (seqLine_facts (col + m.gap + 1) _ hs).1
         have hpc := parseAfter_compact (f' + 1) m.gap col (pnOf .seq e) (Ctx.seq == Ctx.map) '-' _ 
@@ -2482,7 +2618,7 @@ theorem afterL : (x : PNode) → ∀ (ctx : Ctx), x.bl2 ctx = true → ∀ (e co
         have hbs : BoundSeq (col + m.gap + 1) rest :=
           bound_to_seq .seq e _ rest hb (Or.inr (Or.inl (by omega)))
         have := seqL (.cons m' x r) hi (col + m.gap + 1) f' rest [] hf' hbs (Tail_mono _ _ _ _ (by omega) hT)
-        simp only [PItems.linesR, hfl, fillLines, List.map_nil, List.nil_append, List.cons_append, List.append_assoc,
+        simp only [PItems.linesR, hfl0, fillLines, List.map_nil, List.nil_append, List.cons_append, List.append_assoc,
           List.reverse_nil] at this
         exact this
   | .map false st c es, ctx, h, e, col, m, ht, hcol, hroot, f, rest, hf, hb, hT => by
@@ -2490,7 +2626,7 @@ theorem afterL : (x : PNode) → ∀ (ctx : Ctx), x.bl2 ctx = true → ∀ (e co
     obtain ⟨⟨hnil, hi⟩, hc⟩ := h
     have hT : Tail e es.endsKeep rest := by simpa [PNode.endsKeep] using hT
     cases es with
-    | nil => simp [PEntries.isNil] at hnil
+    | nil => simp [PEntries.startOk, PEntries.isNil] at hnil
     | cons m' k ks x r =>
       have hi' := hi
       simp only [PEntries.bl2, Bool.and_eq_true, List.isEmpty_iff, Option.isNone_iff_eq_none] at hi'
@@ -2504,7 +2640,8 @@ theorem afterL : (x : PNode) → ∀ (ctx : Ctx), x.bl2 ctx = true → ∀ (e co
         rw [parseAfter_trail _ _ _ _ _ _ (trailOk_trailText m.trail)]
         obtain ⟨hs, _, _⟩ := canon_value x .map hx (if ctx = .root then 0 else e + st)
           ((if ctx = .root then 0 else e + st) + (keyText k ks).length + 1) m' htr
-        simp only [PEntries.linesR, hfl, fillLines, List.map_nil, List.nil_append, List.cons_append]
+        simp only [PEntries.linesR, List.cons_append, List.append_assoc]
+        rw [parseBlock_congr (f' + 1) _ _ _ _ (skipFill_fillLines _ m'.fill _)]
         have hdisp := parseBlock_map f' (pnOf ctx e) (if ctx = .root then 0 else e + st) (ctx == .map) k ks hkey _
           ((x.valueR .map (if ctx = .root then 0 else e + st) ((if ctx = .root then 0 else e + st) + (keyText k ks).length + 1) m').2 ++
             r.linesR (if ctx = .root then 0 else e + st) ++ rest) hs (by
@@ -2529,8 +2666,8 @@ theorem afterL : (x : PNode) → ∀ (ctx : Ctx), x.bl2 ctx = true → ∀ (e co
           · simp [hr0, hroot hr0]
           · simp [hr0]
         have := mapL (.cons m' k ks x r) hi (if ctx = .root then 0 else e + st) f' rest [] hf' hbm (Tail_mono _ _ _ _ hle hT)
-        simp only [PEntries.linesR, hfl, fillLines, List.map_nil, List.nil_append, List.cons_append, List.append_assoc,
-          List.reverse_nil] at this
+        simp only [PEntries.linesR, List.cons_append, List.append_assoc, List.reverse_nil] at this
+        rw [parseMap_congr f' _ _ _ [] (skipFill_fillLines _ m'.fill _)] at this
         exact this
       | true =>
         have hctx : ctx = .seq := by simpa using hc
@@ -2542,7 +2679,8 @@ theorem afterL : (x : PNode) → ∀ (ctx : Ctx), x.bl2 ctx = true → ∀ (e co
         obtain ⟨hs, _, _⟩ := canon_value x .map hx (col + m.gap + 1) (col + m.gap + 1 + (keyText k ks).length + 1) m' htr
         obtain ⟨hsplit, hd, _, _⟩ := keyLine_facts (col + m.gap + 1) k ks hkey _ hs
         obtain ⟨c0, t0, hkt, q1, q2, q3, _, _, q6, _, q8, q9, _⟩ := keyHead_facts k ks hkey
-        simp only [PNode.valueR, if_true, PEntries.linesR, hfl, fillLines, List.map_nil, List.nil_append, List.cons_append,
+        have hfl0 : m'.fill = [] := first_fill_entries m' k ks x r true .seq hnil (Or.inl rfl)
+        simp only [PNode.valueR, if_true, PEntries.linesR, hfl0, fillLines, List.map_nil, List.nil_append, List.cons_append,
           PNode.node]
         rw [hkt] at hsplit hd ⊢
         simp only [List.cons_append] at hsplit hd ⊢
@@ -2560,7 +2698,7 @@ theorem afterL : (x : PNode) → ∀ (ctx : Ctx), x.bl2 ctx = true → ∀ (e co
         rw [e1, hdisp]
         have hbm : BoundMap (col + m.gap + 1) rest := bound_to_map .seq e _ rest hb (Or.inr (by omega))
         have := mapL (.cons m' k ks x r) hi (col + m.gap + 1) f' rest [] hf' hbm (Tail_mono _ _ _ _ (by omega) hT)
-        simp only [PEntries.linesR, hfl, fillLines, List.map_nil, List.nil_append, List.cons_append, List.append_assoc,
+        simp only [PEntries.linesR, hfl0, fillLines, List.map_nil, List.nil_append, List.cons_append, List.append_assoc,
           List.reverse_nil, hkt] at this
         exact this
 /-- The entries of a block sequence at indentation `n`. -/
@@ -2585,13 +2723,14 @@ theorem seqL : (items : PItems) → items.bl2 = true → ∀ (n f : Nat) (rest :
     have h' := h
     simp only [PItems.bl2, Bool.and_eq_true, List.isEmpty_iff, Option.isNone_iff_eq_none] at h'
     obtain ⟨⟨⟨hfl, htr⟩, hx⟩, hr⟩ := h'
-    obtain ⟨hT1, hT2⟩ := tail_after_items m x r hr n rest hT
+    obtain ⟨hT1, hT2⟩ := tail_after_items m x r hr n rest hfl hT
     obtain ⟨f', rfl⟩ : ∃ f', f = f' + 1 := ⟨f - 1, by simp [PItems.bneed] at hf; omega⟩
     have hfx : x.bneed ≤ f' := by simp [PItems.bneed] at hf; omega
     have hfr : r.bneed ≤ f' := by simp [PItems.bneed] at hf; omega
     obtain ⟨hs, _, _⟩ := canon_value x .seq hx n (n + 1) m htr
     obtain ⟨hd, hfil⟩ := seqLine_facts n _ hs
-    simp only [PItems.linesR, hfl, fillLines, List.map_nil, List.nil_append, List.cons_append, List.append_assoc, PItems.nodes]
+    simp only [PItems.linesR, List.cons_append, List.append_assoc, PItems.nodes]
+    rw [parseSeq_congr (f' + 1) n _ _ acc (skipFill_fillLines n m.fill _)]
     rw [parseSeq]
     simp only [skipFill, hfil, Bool.false_eq_true, if_false, Nat.lt_irrefl, hd, Bool.not_true, List.drop_one, List.tail_cons]
     obtain ⟨rest', hpa, hsk⟩ := afterL x .seq hx n (n + 1) m htr (Or.inl (Nat.lt_succ_self n)) (by intro h0; cases h0) f'
@@ -2621,13 +2760,14 @@ theorem mapL : (es : PEntries) → es.bl2 = true → ∀ (n f : Nat) (rest : Lis
     have h' := h
     simp only [PEntries.bl2, Bool.and_eq_true, List.isEmpty_iff, Option.isNone_iff_eq_none] at h'
     obtain ⟨⟨⟨⟨hfl, htr⟩, hkey⟩, hx⟩, hr⟩ := h'
-    obtain ⟨hT1, hT2⟩ := tail_after_entries m k ks x r hr n rest hT
+    obtain ⟨hT1, hT2⟩ := tail_after_entries m k ks x r hr n rest hfl hT
     obtain ⟨f', rfl⟩ : ∃ f', f = f' + 1 := ⟨f - 1, by simp [PEntries.bneed] at hf; omega⟩
     have hfx : x.bneed ≤ f' := by simp [PEntries.bneed] at hf; omega
     have hfr : r.bneed ≤ f' := by simp [PEntries.bneed] at hf; omega
     obtain ⟨hs, _, _⟩ := canon_value x .map hx n (n + (keyText k ks).length + 1) m htr
     obtain ⟨hsplit, hd, hfil, htab⟩ := keyLine_facts n k ks hkey _ hs
-    simp only [PEntries.linesR, hfl, fillLines, List.map_nil, List.nil_append, List.cons_append, List.append_assoc, PEntries.nodes]
+    simp only [PEntries.linesR, List.cons_append, List.append_assoc, PEntries.nodes]
+    rw [parseMap_congr (f' + 1) n _ _ acc (skipFill_fillLines n m.fill _)]
     rw [parseMap]
     simp only [skipFill, hfil, Bool.false_eq_true, if_false, Nat.lt_irrefl, hsplit]
     have hcol : n + ((keyText k ks ++ ':' :: (x.valueR .map n (n + (keyText k ks).length + 1) m).1).length
@@ -2710,7 +2850,7 @@ theorem bneed_value : (x : PNode) → ∀ ctx, x.bl2 ctx = true → ∀ (e col :
     simp only [PNode.bl2, Bool.and_eq_true, Bool.not_eq_true'] at h
     obtain ⟨⟨hnil, hi⟩, _⟩ := h
     cases items with
-    | nil => simp [PItems.isNil] at hnil
+    | nil => simp [PItems.startOk, PItems.isNil] at hnil
     | cons m' x r =>
       cases c with
       | false =>
@@ -2719,7 +2859,7 @@ theorem bneed_value : (x : PNode) → ∀ ctx, x.bl2 ctx = true → ∀ (e col :
         omega
       | true =>
         have := bneed_items (.cons m' x r) hi (col + m.gap + 1)
-        have hf : m'.fill = [] := by simp [PItems.bl2] at hi; exact hi.1.1.1
+        have hf : m'.fill = [] := first_fill_items m' x r true ctx hnil (Or.inl rfl)
         simp only [PNode.bneed, PNode.valueR, if_true, PItems.linesR, hf, fillLines, List.map_nil, List.nil_append,
           List.length_append, wt_cons, List.length_cons, PItems.isNil, Bool.false_eq_true, if_false] at this ⊢
         simp only [spaces, List.length_replicate]
@@ -2728,7 +2868,7 @@ theorem bneed_value : (x : PNode) → ∀ ctx, x.bl2 ctx = true → ∀ (e col :
     simp only [PNode.bl2, Bool.and_eq_true, Bool.not_eq_true'] at h
     obtain ⟨⟨hnil, hi⟩, _⟩ := h
     cases es with
-    | nil => simp [PEntries.isNil] at hnil
+    | nil => simp [PEntries.startOk, PEntries.isNil] at hnil
     | cons m' k ks x r =>
       cases c with
       | false =>
@@ -2737,7 +2877,7 @@ theorem bneed_value : (x : PNode) → ∀ ctx, x.bl2 ctx = true → ∀ (e col :
         omega
       | true =>
         have := bneed_entries (.cons m' k ks x r) hi (col + m.gap + 1)
-        have hf : m'.fill = [] := by simp [PEntries.bl2] at hi; exact hi.1.1.1.1
+        have hf : m'.fill = [] := first_fill_entries m' k ks x r true ctx hnil (Or.inl rfl)
         simp only [PNode.bneed, PNode.valueR, if_true, PEntries.linesR, hf, fillLines, List.map_nil, List.nil_append,
           List.length_append, wt_cons, List.length_cons, PEntries.isNil, Bool.false_eq_true, if_false] at this ⊢
         simp only [spaces, List.length_replicate]
@@ -2747,10 +2887,9 @@ theorem bneed_items : (items : PItems) → items.bl2 = true → ∀ n,
   | .nil, _, _ => by simp [PItems.bneed, PItems.isNil, PItems.linesR, wt]
   | .cons m x r, h, n => by
     simp only [PItems.bl2, Bool.and_eq_true, List.isEmpty_iff] at h
-    have hf : m.fill = [] := h.1.1.1
     have h1 := bneed_value x .seq h.1.2 n (n + 1) m
     have h2 := bneed_items r h.2 n
-    simp only [PItems.bneed, PItems.isNil, PItems.linesR, hf, fillLines, List.map_nil, List.nil_append, wt_cons, wt_append,
+    simp only [PItems.bneed, PItems.isNil, PItems.linesR, wt_cons, wt_append,
       List.length_cons, Bool.false_eq_true, if_false] at h1 h2 ⊢
     split at h2 <;> omega
 theorem bneed_entries : (es : PEntries) → es.bl2 = true → ∀ n,
@@ -2758,10 +2897,9 @@ theorem bneed_entries : (es : PEntries) → es.bl2 = true → ∀ n,
   | .nil, _, _ => by simp [PEntries.bneed, PEntries.isNil, PEntries.linesR, wt]
   | .cons m k ks x r, h, n => by
     simp only [PEntries.bl2, Bool.and_eq_true, List.isEmpty_iff] at h
-    have hf : m.fill = [] := h.1.1.1.1
     have h1 := bneed_value x .map h.1.2 n (n + (keyText k ks).length + 1) m
     have h2 := bneed_entries r h.2 n
-    simp only [PEntries.bneed, PEntries.isNil, PEntries.linesR, hf, fillLines, List.map_nil, List.nil_append, wt_cons,
+    simp only [PEntries.bneed, PEntries.isNil, PEntries.linesR, wt_cons,
       wt_append, List.length_cons, List.length_append, Bool.false_eq_true, if_false] at h1 h2 ⊢
     split at h2 <;> omega
 end
@@ -2826,6 +2964,13 @@ theorem notMark_keyLine (n : Nat) (k : Str) (ks : KStyle) (h : keyOk false k ks 
   | single => exact notMark_of_head n '\'' _ (by decide) (by decide)
   | double sh eu => exact notMark_of_head n '"' _ (by decide) (by decide)
 
+theorem fillLines_notMark (n : Nat) (fs : List Filler) : ∀ l ∈ fillLines n fs, l.notMark := by
+  intro l hl
+  obtain ⟨f, _, rfl⟩ := List.mem_map.mp hl
+  cases f with
+  | blank => constructor <;> simp [fillerLine, isDocStart, isDocEnd, isMarker]
+  | comment c => exact notMark_of_head n '#' c (by decide) (by decide)
+
 mutual
 theorem nm_value : (x : PNode) → ∀ ctx, x.bl2 ctx = true → ∀ (e col : Nat) (m : Meta), trailOk2 m x = true →
     ∀ l ∈ (x.valueR ctx e col m).2, l.notMark
@@ -2838,10 +2983,10 @@ theorem nm_value : (x : PNode) → ∀ ctx, x.bl2 ctx = true → ∀ (e col : Na
       exact nm_items items hi _
     | true =>
       cases items with
-      | nil => simp [PItems.isNil] at h
+      | nil => simp [PItems.startOk, PItems.isNil] at h
       | cons m' x r =>
         have hc := nm_items (.cons m' x r) hi (col + m.gap + 1)
-        have hf : m'.fill = [] := by simp [PItems.bl2] at hi; exact hi.1.1.1
+        have hf : m'.fill = [] := first_fill_items m' x r true ctx h.1.1 (Or.inl rfl)
         simp only [PNode.valueR, if_true, PItems.linesR, hf, fillLines, List.map_nil, List.nil_append] at hc ⊢
         exact fun l hl => hc l (List.mem_cons_of_mem _ hl)
   | .map false st c es, ctx, h, e, col, m, ht => by
@@ -2853,10 +2998,10 @@ theorem nm_value : (x : PNode) → ∀ ctx, x.bl2 ctx = true → ∀ (e col : Na
       exact nm_entries es hi _
     | true =>
       cases es with
-      | nil => simp [PEntries.isNil] at h
+      | nil => simp [PEntries.startOk, PEntries.isNil] at h
       | cons m' k ks x r =>
         have hc := nm_entries (.cons m' k ks x r) hi (col + m.gap + 1)
-        have hf : m'.fill = [] := by simp [PEntries.bl2] at hi; exact hi.1.1.1.1
+        have hf : m'.fill = [] := first_fill_entries m' k ks x r true ctx h.1.1 (Or.inl rfl)
         simp only [PNode.valueR, if_true, PEntries.linesR, hf, fillLines, List.map_nil, List.nil_append] at hc ⊢
         exact fun l hl => hc l (List.mem_cons_of_mem _ hl)
   | .seq true st c items, ctx, h, e, col, m, ht => by rw [valueR_inline _ ctx h rfl e col m]; simp
@@ -2894,8 +3039,9 @@ theorem nm_items : (items : PItems) → items.bl2 = true → ∀ n, ∀ l ∈ it
     obtain ⟨⟨⟨hf, ht⟩, hx⟩, hr⟩ := h
     obtain ⟨hs, _, _⟩ := canon_value x .seq hx n (n + 1) m ht
     intro l hm
-    simp only [PItems.linesR, hf, fillLines, List.map_nil, List.nil_append, List.mem_cons, List.mem_append] at hm
-    rcases hm with rfl | hm | hm
+    simp only [PItems.linesR, List.mem_cons, List.mem_append] at hm
+    rcases hm with hm | rfl | hm | hm
+    · exact fillLines_notMark n m.fill l hm
     · exact notMark_seqLine n _ hs
     · exact nm_value x .seq hx n (n + 1) m ht l hm
     · exact nm_items r hr n l hm
@@ -2905,8 +3051,9 @@ theorem nm_entries : (es : PEntries) → es.bl2 = true → ∀ n, ∀ l ∈ es.l
     simp only [PEntries.bl2, Bool.and_eq_true, List.isEmpty_iff, Option.isNone_iff_eq_none] at h
     obtain ⟨⟨⟨⟨hf, ht⟩, hk⟩, hx⟩, hr⟩ := h
     intro l hm
-    simp only [PEntries.linesR, hf, fillLines, List.map_nil, List.nil_append, List.mem_cons, List.mem_append] at hm
-    rcases hm with rfl | hm | hm
+    simp only [PEntries.linesR, List.mem_cons, List.mem_append] at hm
+    rcases hm with hm | rfl | hm | hm
+    · exact fillLines_notMark n m.fill l hm
     · exact notMark_keyLine n k ks hk _
     · exact nm_value x .map hx n (n + (keyText k ks).length + 1) m ht l hm
     · exact nm_entries r hr n l hm
@@ -3108,9 +3255,9 @@ theorem docLines_head (x : PNode) (g : Nat) (h : x.bl2 .root = true) :
         have hcf : c = false := by cases c <;> simp_all
         subst hcf
         cases items with
-        | nil => simp [PItems.isNil] at hnil
+        | nil => simp [PItems.startOk, PItems.isNil] at hnil
         | cons m' y r =>
-          have hf : m'.fill = [] := by simp [PItems.bl2] at hb; exact hb.1.1.1
+          have hf : m'.fill = [] := first_fill_items m' y r false .root hnil (Or.inr rfl)
           refine ⟨'-', (y.valueR .seq 0 1 m').1, (y.valueR .seq 0 1 m').2 ++ r.linesR 0, ?_, by decide, by decide, by decide⟩
           simp [docLines, PNode.isInline2, PNode.valueR, PItems.linesR, hf, fillLines]
     | map fl st c es =>
@@ -3122,9 +3269,9 @@ theorem docLines_head (x : PNode) (g : Nat) (h : x.bl2 .root = true) :
         have hcf : c = false := by cases c <;> simp_all
         subst hcf
         cases es with
-        | nil => simp [PEntries.isNil] at hnil
+        | nil => simp [PEntries.startOk, PEntries.isNil] at hnil
         | cons m' k ks y r =>
-          have hf : m'.fill = [] := by simp [PEntries.bl2] at hb; exact hb.1.1.1.1
+          have hf : m'.fill = [] := first_fill_entries m' k ks y r false .root hnil (Or.inr rfl)
           have hk : keyOk false k ks = true := by simp [PEntries.bl2] at hb; exact hb.1.1.2
           obtain ⟨c0, t0, hkt, q1, q2⟩ := keyHead_more k ks hk
           obtain ⟨c1, t1, hkt1, _, hh, _⟩ := keyHead_facts k ks hk
